@@ -370,18 +370,25 @@ def deserialize_single_field(  # pylint: disable=too-many-branches
             camel_case_convert=camel_case_convert,
         )
     elif isinstance(field, ClassReference):
-        value = (
-            deserialize_structure_internal(
-                getattr(field, "_ty", None),
-                source_val,
-                name,
-                keep_undefined=keep_undefined,
-                mapper=mapper,
-                camel_case_convert=camel_case_convert,
+        try:
+            value = (
+                deserialize_structure_internal(
+                    getattr(field, "_ty", None),
+                    source_val,
+                    name,
+                    keep_undefined=keep_undefined,
+                    mapper=mapper,
+                    camel_case_convert=camel_case_convert,
+                )
+                if not isinstance(source_val, Structure)
+                else source_val
             )
-            if not isinstance(source_val, Structure)
-            else source_val
-        )
+        except (ValueError, TypeError) as e:
+            # an error from inside the nested structure names the nested field only
+            # ('x: ...', 'Inner.x: ...', '["Inner.x: ..."]'): put the path of THIS field in front
+            if str(e).startswith((f"{name}:", f"{name}_")):
+                raise
+            raise e.__class__(f"{name}: {str(e)}") from e
     elif isinstance(field, StructureReference):
         try:
             value = deserialize_structure_reference(
